@@ -31,9 +31,20 @@ type Program struct {
 	cgKind   string
 	NFuncs   int // teleport functions with bodies
 	NBlocks  int
+	// per-program analysis caches
+	exprers          map[*ssa.Function]*Exprer
+	fas              map[*ssa.Function]*FA
+	storeWritesCache []*StoreWrite
+	storeReadsCache  []*StoreRead
 }
 
+// loadFailPanics: when set (seed loading), a load failure panics instead of exiting so that the caller can skip the seed.
+var loadFailPanics bool
+
 func checkerFail(format string, args ...interface{}) {
+	if loadFailPanics {
+		panic(fmt.Sprintf(format, args...))
+	}
 	fmt.Fprintf(os.Stderr, "CHECKER-FAILURE: "+format+"\n", args...)
 	fmt.Printf("CHECKER-FAILURE: "+format+"\n", args...)
 	os.Exit(2)
@@ -63,7 +74,8 @@ func loadProgram(dir string, extraEnv []string, overlay map[string][]byte) *Prog
 	if len(pkgs) == 0 {
 		checkerFail("no packages loaded from %s", dir)
 	}
-	p := &Program{Dir: dir, AllPkgs: map[string]*packages.Package{}, SSAPkgs: map[string]*ssa.Package{}}
+	p := &Program{Dir: dir, AllPkgs: map[string]*packages.Package{}, SSAPkgs: map[string]*ssa.Package{},
+		exprers: map[*ssa.Function]*Exprer{}, fas: map[*ssa.Function]*FA{}}
 	nerr := 0
 	packages.Visit(pkgs, nil, func(pk *packages.Package) {
 		p.AllPkgs[pk.PkgPath] = pk
